@@ -286,6 +286,9 @@ func c07BGen(t *rapid.T) c07BCase {
 		// a very long LJH3 record (as long as the writer's own buffer): a few cases per shard, each fills the queue with 65 kB records
 		c.Nsamp = rapid.SampledFrom([]int{32768, 32768, 40000}).Draw(t, "longnsamp")
 	}
+	if c.Kind == "off" && rapid.IntRange(0, 19).Draw(t, "longoff") == 0 {
+		c.Nsamp = rapid.SampledFrom([]int{1000, 1200, 2000}).Draw(t, "offnsamp") // long records: large projector and basis matrices in the header
+	}
 	c.NBases = rapid.IntRange(1, 5).Draw(t, "nbases")
 	c.PipeSize = rapid.SampledFrom([]int{4096, 8192, 65536}).Draw(t, "pipe")
 	c.Before = rapid.IntRange(0, 7).Draw(t, "before")
